@@ -15,6 +15,9 @@ CHECKS = {
     'C08': ('flow-sensitive lock-set analysis on the CFG (RAII guards with scopes, unique_lock lock/unlock, raw lock/unlock) with must-hold-on-entry across the call graph; who-may-mutate table for the FIFO ends; CFG x DFA product for the copy/remove/return protocol of dequeue; wait-loop and push/notify ordering rules; edge dominance and the exact _flags relation for the macrostep boundary',
             'Decides for every schedule, by a lock-discipline argument, that each queue operation is atomic (every access to the queue under its mutex), FIFO-correct (add back / take front only), exactly-once (remove iff return the copied front), free of lost wake-ups, and that an external event is only dequeued after the spontaneous test failed and the internal queue was found empty; a step that took transitions always re-checks eventless transitions first.',
             'Not decided: fairness/timing; semantics of std::condition_variable_any are assumed.'),
+    'C09': ('lock-order graph over (mutex, instance role) nodes extended with pseudo-locks for libevent callbacks (held while the callback runs, acquired by blocking event_del/event_free) and thread joins; cycle search; critical-section (same guard) typestate for timer free/erase; CFG x DFA for exactly-once delivery; lock-set rule for the bookkeeping maps; table/shape extraction for delay units',
+            'Decides for all schedules that the delayed-event machinery has no lock-order cycle other than the recorded findings, that a fired or cancelled timer is freed and un-published in one critical section (no double free / use after free), that the callback delivers exactly once or not at all, that cancel visits and removes every matching entry, that the bookkeeping maps are only touched under their mutex, and that delay units are converted correctly.',
+            'Not decided: wall-clock timing ("not before its delay"); due-time order among timers is libevent\'s.'),
     'C12': ('call-graph who-calls rule for the single matcher; linear normal form of token guards and a confirmed table of skip/start/last-token combinations in the sibling scanner loops; structural fingerprint + decision-feature comparison of the two matcher copies; normalisation-feature extraction at every trie lookup',
             'Decides that interpreter, validator and debugger share one matcher, that every whitespace-splitting scanner (incl. the copies shipped for generated C) takes every non-empty token, that the shipped copy of the matcher has the same decision features, and that Promela and VHDL normalise descriptors alike before static resolution.',
             'Not decided: the relation nameMatch computes on all strings (needs execution or a solver).'),
